@@ -6,6 +6,8 @@ R33.2 loaders bind source columns to table columns by NAME:
         header (def-use chain from the header read to the `columns=` hole); the SELECT list and the CREATE TABLE both iterate
         the structure's components in the same order
       - DataFrame / Parquet: INSERT INTO t (<component names>) SELECT "<name>" …  (explicit column list, names quoted)
+R33.4 no decision from the POSITION of a column in an input's header: `<x>.columns[<constant>]` (or a local copy of the header
+      indexed / sliced by a constant) does not occur in the loaders; the SDMX-CSV marker tests are a reviewed table
 R33.3 no positional sampling of data values in the loaders (iloc/head/first_valid_index/sample/next(iter(…))): a schema
       decision taken from "the first row" depends on row order
 Not decided: DuckDB's set semantics for the rest.
@@ -14,7 +16,7 @@ from __future__ import annotations
 
 import ast
 import re
-from typing import Dict, List, Optional
+from typing import Dict, List, Optional, Set, Tuple
 
 from sa import orderlint, sqlx
 from sa.checks.c15 import report_issues
@@ -27,6 +29,14 @@ POSITIONAL_ATTRS = {"iloc", "head", "tail", "first_valid_index", "last_valid_ind
 def single_def(f: FuncInfo, name: str) -> Optional[ast.AST]:
     defs = [n.value for n in walk_no_nested(f.node) if isinstance(n, ast.Assign) and any(isinstance(t, ast.Name) and t.id == name for t in n.targets)]
     return defs[0] if len(defs) == 1 else None
+
+
+HEADER_POSITION_OK: Dict[Tuple[str, str], str] = {
+    ("vtlengine.files.parser._sanitize_pandas_columns", "data.columns[0]"):
+        "SDMX-CSV marker test (DATAFLOW / STRUCTURE is by definition the FIRST column of an SDMX-CSV file); it only decides whether a column that is not a component is dropped early - "
+        "columns that are not components are never loaded",
+    ("vtlengine.files.sdmx_handler._sanitize_sdmx_columns", "data.columns[0]"): "same SDMX-CSV marker test as in files.parser",
+}
 
 
 def run(rep: Report, tier: str) -> None:
@@ -193,5 +203,37 @@ def run(rep: Report, tier: str) -> None:
                                 f"`{bad[:70]}` samples input values by position: a decision taken from it (e.g. DATE vs TIMESTAMP) changes when "
                                 f"the rows of the same table are permuted"))
     rep.floor("loader functions scanned", nfun, 20)
+
+    # ---- R33.4 no decision from the POSITION of a column in the input's header -----------------------------------------
+    rep.rule("R33.4", "no constant-position access to an input's column header in the loaders (reviewed SDMX-CSV marker tests excepted)")
+    nhdr = 0
+    for g in P.iter_functions():
+        if not g.module.name.startswith(("vtlengine.duckdb_transpiler.io", "vtlengine.files")):
+            continue
+        hdr_vars: Set[str] = set()
+        for n in walk_no_nested(g.node):
+            if isinstance(n, ast.Assign) and any(isinstance(x, ast.Attribute) and x.attr == "columns" for x in ast.walk(n.value)):
+                hdr_vars |= {t.id for t in n.targets if isinstance(t, ast.Name)}
+        for n in walk_no_nested(g.node):
+            if isinstance(n, ast.Attribute) and n.attr == "columns":
+                nhdr += 1
+            if not isinstance(n, ast.Subscript):
+                continue
+            sl = n.slice
+            const = (isinstance(sl, ast.Constant) and isinstance(sl.value, int)) or (isinstance(sl, ast.UnaryOp) and isinstance(sl.operand, ast.Constant)) \
+                or (isinstance(sl, ast.Slice) and any(isinstance(x, ast.Constant) and isinstance(x.value, int) for x in (sl.lower, sl.upper) if x is not None))
+            is_hdr = (isinstance(n.value, ast.Attribute) and n.value.attr == "columns") or (isinstance(n.value, ast.Name) and n.value.id in hdr_vars)
+            if not (const and is_hdr):
+                continue
+            key = f"{g.qualname}/{src(n)}"
+            why = HEADER_POSITION_OK.get((g.qualname, src(n)))
+            rep.instance("R33.4", key, nontrivial=why is None, sample={"expr": src(n), "reviewed": why})
+            if why is not None:
+                rep.exemption("R33.4", key, why)
+                continue
+            rep.add(Finding("R33.4", f"R33.4/{key}", g.module.rel, n.lineno, g.qualname,
+                            f"`{src(n)}` takes a column by its POSITION in the input's header: what {g.name} does with it (rename, strip, type detection) applies to a different "
+                            f"column when the same table is given with its columns in another order"))
+    rep.floor("R33.4 header accesses scanned", nhdr, 8)
     rep.analysed = dict(stats, loader_functions=nfun)
     rep.assumptions = ["DuckDB's read_csv(columns=…, header=true) attaches the given names/types by position", "Python dicts preserve insertion order"]
